@@ -4,6 +4,7 @@ import (
 	"bytes"
 	"fmt"
 	"reflect"
+	"strconv"
 
 	"github.com/cocosip/go-dicom-codecs/jpeg2000"
 	"github.com/cocosip/go-dicom-codecs/jpeg2000/codestream"
@@ -142,6 +143,19 @@ func c10OneGeometry(c *Ctx, k c10Case, sample bool) {
 			return
 		}
 		decAlone[i] = d[0]
+	}
+	// correspondence: the size formula of the Coq model (CtrFrames.decoded_len / rle_decoded_len)
+	// against the length the implementation produces
+	{
+		rle01 := "0"
+		if ts.RLE {
+			rle01 = "1"
+		}
+		var reply string
+		if c.HasModel() {
+			reply = c.M.Call("ctr_len", strconv.Itoa(g.H), strconv.Itoa(g.W), strconv.Itoa(g.SPP), strconv.Itoa(g.BitsAllocated), rle01)
+		}
+		c.CorrEq("c10_decoded_len", "c10:"+ts.Short+":decoded-length"+cls, reply, strconv.Itoa(len(decAlone[0])), in(nil))
 	}
 	// the sequences of the quantifier
 	var seqs [][]int
